@@ -27,6 +27,7 @@ VARIABLES l, bad, und
 vars == <<l, bad, und>>
 
 chk(c, k) == IF c THEN <<>> ELSE <<k>>
+Reason(e) == CASE e = ErrTrunc -> "truncated" [] e = ErrOffset -> "offset-beyond-output" [] e = ErrOffset0 -> "offset-zero" [] e = ErrLength -> "length-mismatch" [] OTHER -> "malformed"
 Flag(r) == (r.flags % 2) = 1
 
 Kinds(r) ==
@@ -41,8 +42,8 @@ Kinds(r) ==
     [] r.k = "dec" ->
          LET st == RefDecode(r.alg, r.stream, TRUE)
              le == RefDecode(r.alg, r.stream, FALSE)
-         IN IF st # Err THEN chk(r.err = "", "valid-stream-rejected") \o chk(r.err # "" \/ r.out = st, "valid-stream-wrong-output")
-            ELSE IF le = Err THEN chk(r.err # "", "corrupt-stream-accepted")
+         IN IF ~IsErr(st) THEN chk(r.err = "", "valid-stream-rejected") \o chk(r.err # "" \/ r.out = st, "valid-stream-wrong-output")
+            ELSE IF IsErr(le) THEN chk(r.err # "", "corrupt-stream-accepted:" \o Reason(le))
             ELSE <<>>
     [] r.k = "frame" ->
          chk(~Flag(r) \/ FlagAllowed(r.alg, r.op), "flag-on-uncompressible-frame")
@@ -59,7 +60,7 @@ Kinds(r) ==
             \o chk(r.op \notin {OpOptions, OpStartup} \/ r.plainok, "options-or-startup-body-not-plain")
             \o (IF r.haslog THEN chk(WireBodyOK(Flag(r), neg, r.wire, r.logical),
                                      IF Flag(r) THEN "flagged-body-not-compressed-form" ELSE "unflagged-body-not-plain")
-                ELSE chk(~Flag(r) \/ neg = "" \/ RefDecode(neg, r.wire, FALSE) # Err, "flagged-body-not-compressed-form"))
+                ELSE chk(~Flag(r) \/ neg = "" \/ ~IsErr(RefDecode(neg, r.wire, FALSE)), "flagged-body-not-compressed-form"))
             \o chk(Flag(r) \/ ~FlagAllowed(neg, r.op), "drift-compressible-frame-not-compressed")
     [] r.k = "resp" ->
          chk(r.outcome # "crash", "response-crash") \o chk(r.outcome # "hang", "response-hang")
@@ -67,7 +68,7 @@ Kinds(r) ==
          \o chk(ResponseMustFail(r.negotiated, r.flag, r.body) \/ r.outcome # "error", "drift-good-response-refused")
     [] OTHER -> <<"drift-unknown-vector">>
 
-Undecided(r) == r.k = "dec" /\ r.panic = "" /\ RefDecode(r.alg, r.stream, TRUE) = Err /\ RefDecode(r.alg, r.stream, FALSE) # Err
+Undecided(r) == r.k = "dec" /\ r.panic = "" /\ IsErr(RefDecode(r.alg, r.stream, TRUE)) /\ ~IsErr(RefDecode(r.alg, r.stream, FALSE))
 
 Init == l = 1 /\ bad = <<>> /\ und = FALSE
 Next == /\ l <= Len(Log)
